@@ -58,6 +58,7 @@ def plan(tier, seed):
     for i in range(nsh):
         specs.append({'kind': 'enumerate', 'slice': [i, nsh], 'N': N, 'total': total})
     specs.append({'kind': 'absolute'})
+    specs.append({'kind': 'sequences', 'count': 2 if tier == 'quick' else 10})
     return specs
 
 
@@ -111,6 +112,9 @@ def run_include(ctx, U, s, ext, cfg, hostile):
     elif cfg == 'carts':
         cartdir = os.path.join(home, '.lexaloffle/pico-8/carts/game')
         roots = [os.path.join(home, '.lexaloffle/pico-8/carts')]
+    elif cfg == 'subdir':
+        cartdir = os.path.join(U, 'root', 'sub')
+        roots = [cartdir]
     else:  # a folder whose name merely extends the carts folder's name: the cart's own directory is the root
         cartdir = os.path.join(home, '.lexaloffle/pico-8/carts2/game')
         roots = [cartdir]
@@ -233,9 +237,53 @@ def run_require(ctx, U, s, lp, hostile):
             [os.path.relpath(r, U) for r in roots]), case, key=classify_require(s, outp))
 
 
+def poison(ctx, U):
+    """A load that fails half-way (an included cart that does not lex) and a build that fails in require(): state left behind
+    by a failed operation must not widen what the next one may read."""
+    from pico8.game import file as p8file
+    from pico8 import tool
+    regions, _ = carts.random_regions(ctx.rng, 'zero')
+    root = os.path.join(U, 'root')
+    with open(os.path.join(root, 'broken_inc.p8'), 'wb') as fh:
+        fh.write(rc.write_p8(regions, b'x = "unterminated\n', version=8))
+    cart = os.path.join(root, 'poison_cart.p8')
+    with open(cart, 'wb') as fh:
+        fh.write(rc.write_p8(regions, b'#include broken_inc.p8\n', version=8))
+    try:
+        p8file.from_file(cart)
+    except BaseException:
+        ctx.feature('failed_load_before_case')
+    main = os.path.join(root, 'poison_main.lua')
+    with open(main, 'wb') as fh:
+        fh.write(b'require("sub/needs_missing")\n')
+    with open(os.path.join(root, 'sub', 'needs_missing.lua'), 'wb') as fh:
+        fh.write(b'require("not_there_at_all")\n')
+    try:
+        tool.main(['-q', 'build', os.path.join(root, 'poison_out.p8'), '--lua', main])
+    except BaseException:
+        ctx.feature('failed_build_before_case')
+    for f in (cart, main, os.path.join(root, 'poison_out.p8')):
+        if os.path.exists(f):
+            os.remove(f)
+
+
 def run_shard(spec, ctx):
     U = make_universe()
     try:
+        if spec['kind'] == 'sequences':
+            # histories: a failing operation, then escapes that only a stale include root / working directory would allow
+            for rep in range(spec['count']):
+                for hostile in (False, True):
+                    poison(ctx, U)
+                    for s_ in ('../x', '../lib', '../sub/../x', '../root', '../../root/x', '../x/../x'):
+                        run_include(ctx, U, s_, '.lua', 'subdir', hostile)
+                        run_include(ctx, U, s_, '.p8', 'subdir', hostile)
+                    poison(ctx, U)
+                    for s_ in ('../x', '..', 'sub/../../x', 'x'):
+                        for lp in LOAD_PATHS:
+                            run_require(ctx, U, s_, lp, hostile)
+            ctx.feature('sequences_done')
+            return
         if spec['kind'] == 'absolute':
             for target in ('outside/x', 'outside/sub/x', 'rootbar/x', 'x', 'root/../outside/x', 'root/x'):
                 ap = os.path.join(U, target)
@@ -245,6 +293,12 @@ def run_shard(spec, ctx):
                     for lp in LOAD_PATHS:
                         run_require(ctx, U, ap, lp, hostile)
                         run_require(ctx, U, ap + '.lua', lp, hostile)
+                # module-style dotted spellings of the same absolute path (".tmp.x.outside.x")
+                dotted = ap.replace('/', '.')
+                for hostile in (False, True):
+                    for lp in LOAD_PATHS:
+                        run_require(ctx, U, dotted, lp, hostile)
+                        run_require(ctx, U, dotted.lstrip('.'), lp, hostile)
                 # a load-path separator inside the string followed by an absolute path
                 for pre in ('nope;', 'x;', ';', 'sub/x;', '?;'):
                     for hostile in (False, True):
@@ -296,7 +350,7 @@ def gates(m, tier):
     N = 3 if tier == 'quick' else 4
     if f.get('strings_enumerated', 0) != len(strings(N)):
         missed.append('strings enumerated %d of %d' % (f.get('strings_enumerated', 0), len(strings(N))))
-    for k in ('absolute_paths_done', 'hostile', 'real_fs', 'include_cfg:plain', 'include_cfg:carts', 'include_cfg:carts2', 'include_rejected',
+    for k in ('sequences_done', 'failed_load_before_case', 'failed_build_before_case', 'include_cfg:subdir', 'absolute_paths_done', 'hostile', 'real_fs', 'include_cfg:plain', 'include_cfg:carts', 'include_cfg:carts2', 'include_rejected',
               'include_loaded', 'require_rejected', 'require_built') + tuple('load_path:' + l for l in LOAD_PATHS):
         if f.get(k, 0) < 1:
             missed.append('%s never seen' % k)
